@@ -623,6 +623,22 @@ def run(chk):
 
     chk.notes += sorted("design: " + n for n in design_notes)
 
+    # ---- the same cut-off used with different sampling intervals in one process (state carried between calls would show) -------------
+    from qats.signal import lowpass, highpass
+    for flt, nm in ((lowpass, "lp"), (highpass, "hp")):
+        for fc in (0.1, rng.choice([0.05, 0.2, 0.25])):
+            for dt in (0.1, 1.0, 0.5, 0.1):
+                if fc >= 0.45 / dt:
+                    continue
+                n = record_length(dt, [fc])
+                t = np.arange(n) * dt
+                y = flt(np.sin(2 * np.pi * fc * t), dt, fc)
+                g, _, _ = fit(t, y, fc, 0.0, 1.0)
+                chk.count("cutoff-sequence")
+                if abs(g - 0.5) > 2e-3:
+                    chk.fail("gain 1/2 at the cut-off for any sampling interval (same cut-off reused with another dt in the same process)",
+                             dict(kind="cutoff-sequence", filter=nm, fc=fc, dts=[0.1, 1.0, 0.5, 0.1], failing_dt=dt), 0.5, [g.real, g.imag])
+
     # ---- the series-level filter call equals retrieval with the same filter arguments, whatever numeric type the cut-off has --------
     from qats import TimeSeries
     t = np.arange(2001) * 0.1
